@@ -10,6 +10,9 @@
 #![allow(clippy::all, dead_code)]
 
 use super::*;
+// explicit imports: do not rely on what the parent module happens to import
+#[allow(unused_imports)]
+use std::sync::Arc;
 use serde_json::{Value, json};
 use std::io::{Seek, SeekFrom};
 use std::os::unix::fs::{OpenOptionsExt, PermissionsExt};
@@ -656,12 +659,98 @@ fn record(job: &Value) {
     out.finish();
 }
 
+// ------------------------------------------------------------------------------------------------------------
+// spec/CookiePlain.tla: cookies that authenticate under a key the set holds but whose plaintext has any shape
+// ------------------------------------------------------------------------------------------------------------
+#[path = "/verif/harness/common/wire.rs"]
+mod wire;
+
+/// a cookie made like KeySet::encode_cookie makes them, around an arbitrary plaintext
+fn forge_cookie(keys: &KeySet, plaintext: &[u8]) -> Vec<u8> {
+    let mut output = plaintext.to_vec();
+    let n = output.len();
+    output.resize(n + 2 + 4 + 16 + 16, 0);
+    output.copy_within(0..n, 6);
+    let r = keys.keys[keys.primary as usize].encrypt(&mut output[6..], n, &[]).expect("encrypt");
+    assert_eq!(r.nonce_length, 16);
+    output[0..4].copy_from_slice(&(keys.primary.wrapping_add(keys.id_offset)).to_be_bytes());
+    output[4..6].copy_from_slice(&(r.ciphertext_length as u16).to_be_bytes());
+    output.truncate(6 + r.nonce_length + r.ciphertext_length);
+    output
+}
+
+fn plaintexts(job: &Value) {
+    let cases = util::read_ndjson(job["input"].as_str().unwrap());
+    let mut out = util::NdjsonOut::create(job["output"].as_str().unwrap());
+    let mut rng = Rng::new(job["seed"].as_u64().unwrap_or(0) ^ 0x636f_6f6b);
+    for history in [0usize, 2] {
+        let mut prov = KeySetProvider::new(history);
+        for _ in 0..3 {
+            prov.rotate();
+        }
+        let keys = prov.get();
+        for (n, c) in cases.iter().enumerate() {
+            let plain: Vec<u8> = match c["short"].as_str().unwrap() {
+                "none" => vec![],
+                "one" => vec![0],
+                _ => {
+                    let mut v = (c["alg"].as_u64().unwrap() as u16).to_be_bytes().to_vec();
+                    v.extend(rng.bytes(c["len"].as_u64().unwrap() as usize));
+                    v
+                }
+            };
+            let cookie = forge_cookie(&keys, &plain);
+            let alone = match util::catch(|| keys.decode_cookie(&cookie).is_ok()) {
+                Ok(true) => "ok".to_string(),
+                Ok(false) => "err".to_string(),
+                Err(p) => format!("panic:{p}"),
+            };
+            // inside a request: unique id, the cookie, an authenticator sealed with the c2s key the plaintext names
+            // (a random key if it names none); v4 and v5
+            let mut in_packet = vec![];
+            for ver in [4u8, 5] {
+                let c2s: Box<dyn crate::packet::Cipher> = if c["ok"] == json!(true) {
+                    let w = (plain.len() - 2) / 2;
+                    if w == 32 {
+                        Box::new(AesSivCmac256::try_from(&plain[2 + w..]).unwrap())
+                    } else {
+                        Box::new(AesSivCmac512::try_from(plain[2 + w..].iter()).unwrap())
+                    }
+                } else {
+                    Box::new(AesSivCmac256::try_from(&rng.bytes(32)[..]).unwrap())
+                };
+                let mut hdr = wire::Hdr::new(ver, 3);
+                if ver == 5 {
+                    hdr.word3 = [0, 0, 0, 1];
+                }
+                let mut pre = vec![];
+                if ver == 5 {
+                    pre.push(wire::Ef::Draft(wire::DRAFT.to_vec()));
+                }
+                pre.push(wire::Ef::Uid(rng.bytes(32)));
+                pre.push(wire::Ef::Cookie(cookie.clone()));
+                let (d, _) = wire::datagram(&hdr, &pre, Some((c2s.as_ref(), &[])), &[]);
+                let r = match util::catch(|| crate::packet::NtpPacket::deserialize(&d, keys.as_ref()).map(|(_, ck)| ck.is_some())) {
+                    Ok(Ok(true)) => "ok".to_string(),
+                    Ok(Ok(false)) => "ok-without-cookie".to_string(),
+                    Ok(Err(_)) => "err".to_string(),
+                    Err(p) => format!("panic:{p}"),
+                };
+                in_packet.push(json!([ver, r]));
+            }
+            out.put(&json!({"id": n, "history": history, "alone": alone, "in_packet": in_packet}));
+        }
+    }
+    out.finish();
+}
+
 #[test]
 fn verif_keyset() {
     let job = util::job();
     match job["mode"].as_str().unwrap() {
         "replay" => replay(&job),
         "record" => record(&job),
+        "plaintexts" => plaintexts(&job),
         m => panic!("unknown mode {m}"),
     }
 }
